@@ -6,6 +6,7 @@ import (
 	"fmt"
 
 	"github.com/google/mtail/internal/zzverif/vlib"
+	"strings"
 )
 
 // Flag names of the known-defect constructs (one per flagged stream).
@@ -728,8 +729,23 @@ func (g *gen) exprX(c *ctx, t Ty, d int, strict bool) *Expr {
 				B: &Expr{Op: "str", Ty: TStr, S: vlib.Pick(r, []string{"", "Z", "a"})}, C: g.exprX(c, TStr, d-1, strict)}
 		case k < 5:
 			g.feat("builtin/rsubst")
-			return &Expr{Op: "rsubst", Ty: TStr, Pat: g.newPat(true),
-				B: &Expr{Op: "str", Ty: TStr, S: vlib.Pick(r, []string{"", "Z", "a"})}, C: g.exprX(c, TStr, d-1, strict)}
+			// the replacement is literal text: `$1`, `${name}` and `$$` stand for
+			// themselves (docs/Language.md: ReplaceAllLiteralString)
+			pn := g.newPat(true)
+			if r.Chance(60) {
+				// the pattern of a subst may capture (inside subst the groups define no
+				// symbols); the replacement is still literal text
+				pt := pn.P
+				grp := "(" + pt.Word + ")"
+				if r.Chance(30) {
+					grp = "(?P<name>" + pt.Word + ")"
+				}
+				pt.InSubst = true
+				pt.Text = strings.Replace(pt.Text, pt.Word, grp, 1)
+				pt.Parts = []PatPart{{Lit: pt.Text}}
+			}
+			return &Expr{Op: "rsubst", Ty: TStr, Pat: pn,
+				B: &Expr{Op: "str", Ty: TStr, S: vlib.Pick(r, []string{"", "Z", "a", "$1", "<$1>", "${1}x", "$$", "$0-$2", "${name}"})}, C: g.exprX(c, TStr, d-1, strict)}
 		case k < 7:
 			g.feat("builtin/string")
 			from := vlib.Pick(r, []Ty{TInt, TInt, TFloat, TStr})
